@@ -299,6 +299,7 @@ class Ctx:
         self.diag = {}       # atom name -> True if declared diagonal in its last two slots (stored as vector atom)
         self.max_perm = 40320
         self.idempotent = set()
+        self.fsym = {}           # (fname, keyid) -> symmetric hole groups of a function atom
         self.partitions = {}     # sort -> [(map name, part sort), ...]: the maps are injections with disjoint ranges covering sort
         self.part_of = {}        # map name -> (sort, position)
 
@@ -528,11 +529,35 @@ def make_fatom(fname, p, ctx, power=1, fixed_order=None):
         form, key = _poly_form(p, m)
         if best is None or key < best[0]:
             best = (key, form, dict(m))
-    _, form, m = best
+    bestkey, form, m = best
     holes = [None] * n
     for v, h in m.items():
         holes[h[1]] = v
-    return ("F", fname, ctx.intern(form), tuple(holes), power)
+    kid = ctx.intern(form)
+    if n >= 2 and (fname, kid) not in ctx.fsym:
+        # hole symmetries: swapping two holes of the same sort leaves the canonical form invariant
+        groups = []
+        for i in range(n):
+            for j in range(i + 1, n):
+                if str(holes[i].sort) != str(holes[j].sort):
+                    continue
+                # re-canonicalise p with the two index variables exchanged and compare
+                tmp = IV(holes[i].sort)
+                e_sw = subst(subst(subst(poly_to_expr(p), {holes[i]: tmp}), {holes[j]: holes[i]}), {tmp: holes[j]})
+                try:
+                    p_sw = normalize(e_sw, ctx)
+                except KernelError:
+                    continue
+                _, key2 = _poly_form(p_sw, m)
+                if key2 == bestkey:
+                    for g in groups:
+                        if i in g or j in g:
+                            g.update((i, j))
+                            break
+                    else:
+                        groups.append({i, j})
+        ctx.fsym[(fname, kid)] = [tuple(sorted(g)) for g in groups]
+    return ("F", fname, kid, tuple(holes), power)
 
 
 def _is_const_poly(p):
@@ -1016,7 +1041,13 @@ def _merge_key(k, ctx=None):
     if k[0] == "N":
         return ("N", str(k[1]))
     if k[0] == "F":
-        return ("F", k[1], k[2], tuple(ik(i) for i in k[3]))
+        idx = [ik(i) for i in k[3]]
+        if ctx is not None:
+            for g in ctx.fsym.get((k[1], k[2]), []):
+                vals = sorted((idx[p] for p in g), key=repr)
+                for p, v in zip(g, vals):
+                    idx[p] = v
+        return ("F", k[1], k[2], tuple(idx))
     if k[0] == "D":
         return ("D",) + tuple(sorted((ik(k[1]), ik(k[2])), key=repr))
     raise KernelError(k)
@@ -1095,7 +1126,7 @@ def canon_mono(f, b, ctx):
                 hit = (i is v) or (is_app(i) and any(w is v for w in ivs_in(i)))
                 if hit:
                     name = x[1] if x[0] in ("A", "F") else "δ"
-                    symg = ctx.sym.get(name, []) if x[0] == "A" else []
+                    symg = ctx.sym.get(name, []) if x[0] == "A" else (ctx.fsym.get((x[1], x[2]), []) if x[0] == "F" else [])
                     p = pos
                     for g in symg:
                         if pos in g:
@@ -1154,7 +1185,7 @@ def _refine(groups, f, ctx):
                     if not here:
                         continue
                     name = x[1] if x[0] in ("A", "F") else "δ"
-                    symg = ctx.sym.get(name, []) if x[0] == "A" else []
+                    symg = ctx.sym.get(name, []) if x[0] == "A" else (ctx.fsym.get((x[1], x[2]), []) if x[0] == "F" else [])
 
                     def slot(pos):
                         for gsym in symg:
@@ -1206,6 +1237,15 @@ def _sortf(f, m, ctx):
         elif y[0] == "D":
             a, c = sorted((y[1], y[2]), key=_ikey)
             y = ("D", a, c)
+        elif y[0] == "F":
+            gs = ctx.fsym.get((y[1], y[2]))
+            if gs:
+                idx = list(y[3])
+                for g in gs:
+                    vals = sorted((idx[p] for p in g), key=_ikey)
+                    for p, v in zip(g, vals):
+                        idx[p] = v
+                y = ("F", y[1], y[2], tuple(idx), y[4])
         out.append(y)
     return tuple(sorted(out, key=_fkey))
 
@@ -1222,7 +1262,67 @@ def residual(e, ctx):
     p = normalize(e, ctx)
     if p:
         p = clear_denominators(p, ctx)
+    if p:
+        p2 = unify_fatoms(p, ctx)
+        if p2 is not None:
+            p = clear_denominators(p2, ctx) if p2 else p2
     return p
+
+
+def unify_fatoms(p, ctx, fnames=("exp", "log", "Phi", "phi", "sqrt", "cosh", "tanh", "step")):
+    """completion step: two function atoms f<key1>, f<key2> whose ARGUMENTS are equal as rational functions (after
+    clearing denominators, up to a permutation of their holes) denote the same value.  Rewrites key2 -> key1 in p and
+    renormalises.  Returns None if nothing could be unified."""
+    seen = {}
+    for (f, nb), c in p.items():
+        for x in f:
+            if x[0] == "F" and x[1] in fnames:
+                seen.setdefault((x[1], x[2]), len(x[3]))
+    keys = sorted(seen)
+    if len(keys) < 2 or len(keys) > 12:
+        return None
+    rules = {}     # (fname, key2) -> (key1, perm)  meaning  f<key2>(h) = f<key1>(h[perm[0]], h[perm[1]], ...)
+    for a in range(len(keys)):
+        for b_ in range(a + 1, len(keys)):
+            (fn1, k1), (fn2, k2) = keys[a], keys[b_]
+            if fn1 != fn2 or seen[keys[a]] != seen[keys[b_]] or (fn2, k2) in rules or (fn1, k1) in rules:
+                continue
+            n = seen[keys[a]]
+            if n > 4:
+                continue
+            hs = [IV(f"?{i}") for i in range(n)]
+            # recover hole sorts from the forms (holes are untyped markers): try all permutations, let normalisation decide
+            for perm in itertools.permutations(range(n)):
+                try:
+                    e1 = form_to_expr(ctx.forms[k1], {i: hs[perm[i]] for i in range(n)})
+                    e2 = form_to_expr(ctx.forms[k2], {i: hs[i] for i in range(n)})
+                    d = normalize(sub(e1, e2), ctx)
+                    if d:
+                        d = clear_denominators(d, ctx)
+                except KernelError:
+                    continue
+                if not d:
+                    rules[(fn2, k2)] = (k1, perm)
+                    break
+    if not rules:
+        return None
+
+    def fix(e):
+        k = e[0]
+        if k == "fatom" and (e[1], e[2]) in rules:
+            k1, perm = rules[(e[1], e[2])]
+            # f<k2>(h_0..h_n) with e2 holes i -> hs[i], e1 holes i -> hs[perm[i]]  =>  f<k1> holes[i] = h[perm[i]]
+            return ("fatom", e[1], k1, tuple(e[3][perm[i]] for i in range(len(perm))), e[4])
+        if k in ("add", "mul"):
+            return (k, tuple(fix(x) for x in e[1]))
+        if k == "sum":
+            return ("sum", e[1], fix(e[2]))
+        if k == "pow":
+            return ("pow", fix(e[1]), e[2])
+        if k == "fn":
+            return ("fn", e[1], fix(e[2]))
+        return e
+    return normalize(fix(poly_to_expr(p)), ctx)
 
 
 # ------------------------------------------------------------------ printing
@@ -1325,6 +1425,17 @@ def register_inv(ctx, name, X, batch, row, col, head=0, symmetric=True):
     terms = []
     for (f, nb), c in sorted(p.items(), key=lambda kv: repr(tuple(_fkey(x) for x in kv[0][0]))):
         terms.append((c, f))
+    # head orientation: prefer a term that the matcher can recognise -- plain atoms with power one, ideally a single
+    # atom carrying both matrix indices (e.g. the noise covariance in  Sigma + M Sx M' + ...)
+    def score(t):
+        c, f = t
+        simple = all(x[0] == "A" and x[3] == 1 for x in f)
+        if not simple:
+            return (2, len(f))
+        direct = any(any(i is row for i in x[2]) and any(i is col for i in x[2]) for x in f)
+        return (0 if (len(f) == 1 and direct) else 1, len(f))
+    if head == 0 and terms:
+        head = min(range(len(terms)), key=lambda k: (score(terms[k]), k))
     ctx.inv_rel[name] = dict(terms=terms, batch=list(batch), row=row, col=col, head=head, X=X)
     if symmetric:
         nb = len(batch)
